@@ -119,7 +119,8 @@ Print Assumptions C12_gcm_decrypt_encrypt.
 
 (* ---- 7. the tag ------------------------------------------------------------------------------------------------------- *)
 (* the recomputed tag is E(K, J0(IV)) xor GHASH_H(A || 0 || C || 0 || [len A]_64 || [len C]_64), over exactly the
-   (IV, A, C) that were passed; and for one key and IV two tags agree iff the two GHASH values agree *)
+   (IV, A, C) that were passed; and for one key and IV two tags agree iff the two GHASH values agree (the second
+   conjunct is just xor-cancellation of E(K, J0); a modified key or IV changes H / J0 and is not covered by it) *)
 Theorem C12_tag_depends_on_all : forall E K IV A C A' C', gcm_cipher E ->
   length K = 16 -> bytes_ok IV = true -> bytes_ok A = true -> bytes_ok C = true ->
   bytes_ok A' = true -> bytes_ok C' = true ->
